@@ -37,4 +37,89 @@ theorem semi_join_code (truth : Term → Bool) :
         [Term.app "if" [Term.app "In" [Term.app "call" [extract by1, Term.sym "item"], ids],
           Term.app "block" [Term.app "yield" [Term.sym "item"]], Term.app "block" []]]]] := rfl
 
+/-- anti_join: the left items, in order and untouched, whose key tuple is NOT among the right key tuples — for ANY right
+    list (an empty one included: then every left item). -/
+theorem anti_join_code (truth : Term → Bool) :
+    ListOfDicts_anti_join truth =
+      let ids := Term.app "set" [Term.app "map" [extract by2, Term.sym "other"]]
+      Out.fall [Term.app "for" [Term.sym "item", Term.sym "self", Term.app "block"
+        [Term.app "if" [Term.app "NotIn" [Term.app "call" [extract by1, Term.sym "item"], ids],
+          Term.app "block" [Term.app "yield" [Term.sym "item"]], Term.app "block" []]]]] := rfl
+
+/-- inner_join: as left_join (first match through the reversed dict, non-key entries merged into the left item itself),
+    but only matched items are yielded. -/
+theorem inner_join_code (truth : Term → Bool) :
+    ListOfDicts_inner_join truth =
+      let byId := Term.app "DictComp" [Term.app "pair" [Term.app "call" [extract by2, Term.sym "x"], Term.sym "x"],
+        Term.app "in" [Term.sym "x", Term.app "reversed" [Term.sym "other"], Term.app "if" []]]
+      Out.fall [Term.app "for" [Term.sym "item", Term.sym "self", Term.app "block"
+        [Term.app "assign" [Term.sym "id", Term.app "call" [extract by1, Term.sym "item"]],
+         Term.app "if" [Term.app "In" [Term.sym "id", byId], Term.app "block"
+           [Term.app "assign" [Term.sym "new", Term.app "getitem" [byId, Term.sym "id"]],
+            Term.app "assign" [Term.sym "new", Term.app "DictComp" [Term.app "pair" [Term.sym "k", Term.sym "v"],
+              Term.app "in" [Term.app "tuple" [Term.sym "k", Term.sym "v"], Term.app ".items" [Term.sym "new"],
+                Term.app "if" [Term.app "NotIn" [Term.sym "k", by2]]]]],
+            Term.app ".update" [Term.sym "item", Term.sym "new"],
+            Term.app "yield" [Term.sym "item"]], Term.app "block" []]]]] := rfl
+
+/-- the `by` arguments: a string names the key on both sides; anything else is a (left, right) pair read by position
+    (`x[0]`, `x[1]`) — a tuple and a two-element list mean the same; one entry per argument, in argument order. -/
+theorem split_join_by_code (truth : Term → Bool) :
+    ListOfDicts_split_join_by truth =
+      let side (i : Int) := Term.app "ListComp" [Term.app "ifexp" [Term.app "isinstance" [Term.sym "x", Term.sym "str"], Term.sym "x",
+        Term.app "getitem" [Term.sym "x", Term.int i]], Term.app "in" [Term.sym "x", Term.sym "by", Term.app "if" []]]
+      Out.ret [] (Term.app "tuple" [side 0, side 1]) := rfl
+
+/-! ### full_join and aggregate: the isolating deep copies come BEFORE the editing calls -/
+
+def counter : Term := Term.app "itertools.count" [Term.app "=start" [Term.int 1]]
+def tagged (who : String) (kw : String) : Term :=
+  Term.app ".modify" [Term.app ".deepcopy" [Term.sym who],
+    Term.app kw [Term.app "lambda" [Term.app "params" [Term.sym "x"], Term.app "next" [counter]]]]
+
+/-- **full_join as written**: both operands are deep-copied before anything is written (`_aid_` / `_bid_` go into the
+    copies); the forward left join runs on ANOTHER deep copy of the tagged left list (so the tagged left list `a` is still
+    unmerged when the reverse join uses it); unmatched right items are those whose `_bid_` does not occur in `ab`; when
+    none remain the forward join is the answer, otherwise `ab + ba` sorted by (`_aid_`, `_bid_`) — left order first, then
+    right order — and the two bookkeeping keys removed. -/
+theorem full_join_code (truth : Term → Bool) :
+    ListOfDicts_full_join truth =
+      let a := tagged "self" "=_aid_"
+      let b := tagged "other" "=_bid_"
+      let ab := Term.app ".fill_missing_keys" [Term.app ".left_join" [Term.app ".deepcopy" [a], b, Term.app "*" [Term.sym "by"]],
+        Term.app "=_bid_" [Term.app "next" [counter]]]
+      let b' := Term.app ".anti_join" [b, ab, Term.sym "'_bid_'"]
+      if truth (Term.app "Eq" [Term.app "len" [b'], Term.int 0]) then
+        Out.ret [] (Term.app ".unselect" [ab, Term.sym "'_aid_'", Term.sym "'_bid_'"])
+      else
+        let byRev := Term.app "ListComp" [Term.app "ifexp" [Term.app "isinstance" [Term.sym "x", Term.app "tuple" [Term.sym "list", Term.sym "tuple"]],
+          Term.app "tuple" [Term.app "reversed" [Term.sym "x"]], Term.sym "x"], Term.app "in" [Term.sym "x", Term.sym "by", Term.app "if" []]]
+        let ba := Term.app ".fill_missing_keys" [Term.app ".left_join" [b', a, Term.app "*" [byRev]], Term.app "=_aid_" [Term.app "next" [counter]]]
+        Out.ret [] (Term.app ".unselect" [Term.app ".sort" [Term.app "Add" [ab, ba], Term.app "=_aid_" [Term.int 1], Term.app "=_bid_" [Term.int 1]],
+          Term.sym "'_aid_'", Term.sym "'_bid_'"]) := by
+  unfold ListOfDicts_full_join
+  dsimp only [tagged, counter]
+
+/-- **aggregate as written**: the group rows are `self.unique(*by).deepcopy().select(*by)` — the deep copy comes BEFORE the
+    editing call `select`, so the receiver's chain is never marked obsolete and no item of the receiver is written; the
+    buckets are filled in one pass over the receiver in list order (`setdefault(id, []).append(item)`: first-seen buckets,
+    items in list order); the groups are visited in ascending key order and each function sees a fresh ListOfDicts of
+    exactly its bucket. -/
+theorem aggregate_code (truth : Term → Bool) :
+    ListOfDicts_aggregate truth =
+      let by' := Term.app "._group_keys" [Term.sym "self"]
+      let groups := Term.app ".select" [Term.app ".deepcopy" [Term.app ".unique" [Term.sym "self", Term.app "*" [by']]], Term.app "*" [by']]
+      let extr := Term.app "operator.itemgetter" [Term.app "*" [by']]
+      let fill := Term.app "for" [Term.sym "item", Term.sym "self", Term.app "block"
+        [Term.app "assign" [Term.sym "id", Term.app "call" [extr, Term.sym "item"]],
+         Term.app ".append" [Term.app ".setdefault" [Term.sym "{}", Term.sym "id", Term.app "list" []], Term.sym "item"]]]
+      let visit := Term.app "for" [Term.sym "group", Term.app ".sort" [groups, Term.app "=**" [Term.app "dict.fromkeys" [by', Term.int 1]]], Term.app "block"
+        [Term.app "assign" [Term.sym "id", Term.app "call" [extr, Term.sym "group"]],
+         Term.app "assign" [Term.sym "items", Term.app "ListOfDicts" [Term.app "getitem" [Term.sym "{}", Term.sym "id"]]],
+         Term.app "for" [Term.app "tuple" [Term.sym "key", Term.sym "function"], Term.app ".items" [Term.sym "key_function_pairs"],
+           Term.app "block" [Term.app "store" [Term.app "getitem" [Term.sym "group", Term.sym "key"], Term.app "call" [Term.sym "function", Term.sym "items"]]]],
+         Term.app "yield" [Term.sym "group"]],
+        Term.app "init" [Term.sym "id", Term.app "value-after-loop" [Term.sym "id", fill]]]
+      Out.fall [fill, visit] := rfl
+
 end DI.Tie.C16
